@@ -152,7 +152,15 @@ func evalHelper(op string, args []string) string {
 		}
 		p := &radius.Packet{Code: 1, Secret: unhx(args[2])}
 		copy(p.Authenticator[:], auth)
+		// q is the request the reply answers: the helpers take its AUTHENTICATOR (and nothing else) from it;
+		// whatever secret that packet value happens to carry is not the one the attribute is hidden with
 		q := &radius.Packet{Code: 1, Secret: p.Secret}
+		switch (len(args[1]) + len(args[2])) % 3 {
+		case 1:
+			q.Secret = nil
+		case 2:
+			q.Secret = append([]byte("not-the-secret-"), p.Secret...)
+		}
 		copy(q.Authenticator[:], auth)
 		p.Attributes = toAttributes(parseAVPs(args[1]))
 		obs := []string{"init|" + showAttributes(p.Attributes) + "|" + helperReads(e, p, q)}
